@@ -285,6 +285,22 @@ func addrChain(v ssa.Value) (root ssa.Value, path string, fields []ssa.Value) {
 	return v, path, fields
 }
 
+// statefulLibType: library value types whose pointer-receiver methods mutate unsynchronised state (a frozen list: which
+// library methods write cannot be told from their signatures; http.Client, websocket.Upgrader and the like are
+// documented as safe for concurrent use).
+var statefulLibType = map[string]bool{
+	"bytes.Buffer": true, "strings.Builder": true, "bufio.Writer": true, "bufio.Reader": true, "bufio.Scanner": true,
+	"container/list.List": true, "container/ring.Ring": true, "math/rand.Rand": true, "text/tabwriter.Writer": true,
+	"encoding/json.Decoder": true, "encoding/json.Encoder": true, "encoding/gob.Decoder": true, "encoding/gob.Encoder": true,
+}
+
+// readOnlyLibMethod: pointer-receiver library methods that only read their receiver.
+var readOnlyLibMethod = map[string]bool{
+	"Buffer.Len": true, "Buffer.Bytes": true, "Buffer.String": true, "Buffer.Cap": true,
+	"Int.Cmp": true, "Int.Sign": true, "Int.String": true, "Int.Text": true, "Int.BitLen": true, "Int.IsInt64": true, "Int.Int64": true, "Int.Uint64": true, "Int.CmpAbs": true, "Int.Bytes": true, "Int.MarshalJSON": true, "Int.MarshalText": true, "Int.Format": true, "Int.GobEncode": true, "Int.Append": true, "Int.IsUint64": true, "Int.Bit": true, "Int.ProbablyPrime": true,
+	"Reader.Len": true, "Reader.Size": true,
+}
+
 // writesOf lists the memory writes of fn.
 func writesOf(fn *ssa.Function) []writeTarget {
 	var out []writeTarget
@@ -320,6 +336,22 @@ func writesOf(fn *ssa.Function) []writeTarget {
 			}
 			if an.IsBigIntMutator(x) && len(cc.Args) > 0 {
 				mk(in, cc.Args[0], "big.Int."+an.CallObj(x).Name())
+				return
+			}
+			// a pointer-receiver method of a library type called on the address of a by-value field (codec.wbuf.Reset(),
+			// s.buf.Write(..)): the method works on memory that belongs to the struct holding the field, so this is a
+			// write to that field (for the library types known to keep unsynchronised state, statefulLibType).
+			if f := an.CallObj(x); f != nil && !cc.IsInvoke() && len(cc.Args) > 0 {
+				if fa, ok := cc.Args[0].(*ssa.FieldAddr); ok {
+					if rn := an.RecvNamed(f); rn != nil && rn.Obj().Pkg() != nil {
+						pk := rn.Obj().Pkg().Path()
+						sig, _ := f.Type().(*types.Signature)
+						_, ptrRecv := sig.Recv().Type().(*types.Pointer)
+						if ptrRecv && statefulLibType[pk+"."+rn.Obj().Name()] && !readOnlyLibMethod[rn.Obj().Name()+"."+f.Name()] {
+							mk(in, fa, "method "+rn.Obj().Name()+"."+f.Name())
+						}
+					}
+				}
 			}
 		}
 	})
